@@ -50,6 +50,11 @@ def instances(tier, seed):
                                 d = dict(out[-1])
                                 d.update(cplx=True, label=d["label"] + " complex state", key=d["key"] + "/complex")
                                 out.append(d)
+                            # operators with hopping blocks (local operators not symmetric in their physical indices)
+                            if "w" not in kinds and (n == 2 or (tier == "thorough" and n == 3) or (n == 3 and variant == "plain")):
+                                d = dict(out[-1] if not out[-1].get("cplx") else out[-2])
+                                d.update(hop=True, label=d["label"] + " hopping operator", key=d["key"] + "/hop")
+                                out.append(d)
     # the real optimize_mps driver (one sweep) with the eigensolver replaced by a contract stub: environment handling, the omega shift
     # and the mask at EVERY local step of the real sweep
     sw = [(("e", "e"), (1, 2, 1)), (("e", "e", "e"), (1, 2, 2, 1))]
@@ -63,6 +68,9 @@ def instances(tier, seed):
                     if om and n > 3:
                         continue
                     qn = [[[0]]] + [[[(0, 1, 1, 0)[k_]] for k_ in range(bonds[i_])] for i_ in range(1, n)] + [[[0]]]      # every bond carries the labels 0 and 1: both blocks are populated
+                    if n == 2 or (tier == "thorough" and n == 3 and not om):
+                        out.append(dict(op="sweep", kinds=kinds, bonds=bonds, qn=qn, qnidx=(n - 1 if start == "right" else 0), method=method, omega=om, obond=2, hop=True, run_opts=dict(budget_s=120.0),
+                                        label="optimize_mps sweep %s %s centre starts %s omega=%s hopping operator" % ("".join(kinds), method, start, om), key="sweep/%s/%s/hop" % (method, "omega" if om else "plain")))
                     out.append(dict(op="sweep", kinds=kinds, bonds=bonds, qn=qn, qnidx=(n - 1 if start == "right" else 0), method=method, omega=om, obond=(1 if (om and n > 2) else 2),
                                     run_opts=dict(budget_s=120.0), label="optimize_mps sweep %s %s centre starts %s omega=%s" % ("".join(kinds), method, start, om), key="sweep/%s/%s" % (method, "omega" if om else "plain")))
     # tree optimiser: the real optimize_ttns recursion (two-site) with the eigensolver replaced by a contract stub
@@ -74,10 +82,12 @@ def instances(tier, seed):
     return out
 
 
-def sym_mpo(ctx, name, model, n, bond=2):
+def sym_mpo(ctx, name, model, n, bond=2, hop=False):
     from renormalizer.mps import Mpo
-    # charge-0 operator with symbolic entries on the label-allowed positions (bond labels all zero => number conserving blocks)
-    qn = [[[0]]] + [[[0]] * bond for _ in range(n - 1)] + [[[0]]]
+    # charge-0 operator with symbolic entries on the label-allowed positions (bond labels all zero => number conserving blocks: on electron sites the
+    # local operators are then diagonal).  hop=True: the operator bonds carry the labels 0 and 1, so creation-type blocks sit left of annihilation-type
+    # blocks (hopping terms): local operators that are NOT symmetric in their two physical indices
+    qn = [[[0]]] + [[[k % 2 if hop else 0] for k in range(bond)] for _ in range(n - 1)] + [[[0]]]
     bonds = [1] + [bond] * (n - 1) + [1]
     return lib.build_mpo(ctx, name, model, bonds, [np.array(q) for q in qn], [0], n - 1, kind="real")
 
@@ -97,7 +107,7 @@ def h_sweep(ctx, P):
     mps.optimize_config = OptimizeConfig(procedure=[[8, 0]])
     mps.optimize_config.method = P["method"]
     mps.compress_config = CompressConfig(CompressCriteria.fixed, max_bonddim=8)
-    mpo = sym_mpo(ctx, "o", model, n, bond=P.get("obond", 2))
+    mpo = sym_mpo(ctx, "o", model, n, bond=P.get("obond", 2), hop=P.get("hop", False))
     H = lib.dense_op(lib.tensors(mpo))
     omega = None
     Href = H
@@ -247,7 +257,7 @@ def make_harness(P):
         mps = lib.build_mps(ctx, "a", model, P["bonds"], [np.array(q) for q in P["qn"]], [1], idx, to_right=P["to_right"], kind=("cplx" if P.get("cplx") else "real"), coeff="one")
         mps.optimize_config = OptimizeConfig()
         mps.optimize_config.method = P["method"]
-        mpo = sym_mpo(ctx, "o", model, n)
+        mpo = sym_mpo(ctx, "o", model, n, hop=P.get("hop", False))
         H = lib.dense_op(lib.tensors(mpo))
         variant = P["variant"]
         if P["method"] == "1site":
@@ -262,7 +272,7 @@ def make_harness(P):
             operator = [mpo, mpo]
             Heff_dense = H.dot(H)
         elif variant == "stacked":
-            mpo2 = sym_mpo(ctx, "p", model, n)
+            mpo2 = sym_mpo(ctx, "p", model, n, hop=P.get("hop", False))
             H2 = lib.dense_op(lib.tensors(mpo2))
             Heff_dense = H + H2
         else:
